@@ -624,6 +624,16 @@ def c03_l2_scenario(binary, work, idx, rng, merged):
     if nfans == 3:
         fans_yaml += "  - id: ff\n    file:\n      path: %s/filefan\n    curve: lin\n    controlAlgorithm: direct\n" % sd
         devices.append(("file", os.path.join(sd, "filefan"), None))
+    # every 8th scenario (and a fifth of the others) also has a cmd fan whose set tool takes 0.4 s (liquidctl-like); two
+    # signals 0.1 s apart: the second one arrives while the tool is writing the fan's full speed
+    slow_cmd = idx % 8 == 6 or (not fatal and rng.random() < 0.2)
+    if slow_cmd:
+        l2.write(os.path.join(sd, "cmdpwm"), "%d\n" % orig_pwm)
+        l2.write(os.path.join(sd, "cmdset.sh"), "#!/bin/sh\necho \"$1\" >> %s/cmdwrites\nsleep 0.4\necho \"$1\" > %s/cmdpwm.tmp && mv %s/cmdpwm.tmp %s/cmdpwm\n" % (sd, sd, sd, sd), 0o755)
+        l2.write(os.path.join(sd, "cmdget.sh"), "#!/bin/sh\ncat %s/cmdpwm\n" % sd, 0o755)
+        fans_yaml += ("  - id: fc\n    cmd:\n      setPwm:\n        exec: %s/cmdset.sh\n        args: [\"%%pwm%%\"]\n      getPwm:\n        exec: %s/cmdget.sh\n"
+                      "    curve: lin\n    controlAlgorithm: direct\n    pwmMap:\n      0: 0\n      128: 128\n      255: 255\n") % (sd, sd)
+        devices.append(("cmd", os.path.join(sd, "cmdpwm"), None))
     mode_fault = rng.choice(["ok", "ok", "refused", "ignored", "stick1"]) if has_enable else "ok"
     pwm_fault = rng.choice(["ok", "ok", "ok", "refused255"])
     rules = []
@@ -641,6 +651,10 @@ def c03_l2_scenario(binary, work, idx, rng, merged):
     sigs = [rng.choice([_signal.SIGTERM, _signal.SIGINT]) for _ in range(nsig)]
     gaps = [rng.choice([0.0, 0.005, 0.05, 1.0]) for _ in range(nsig - 1)]
     phase = rng.choice(["startup-wait", "analysis", "analysis-late", "first-second", "ticking", "ticking-late"])
+    if idx % 8 == 6:
+        nsig, phase = 2, "ticking-late"
+        sigs = [_signal.SIGTERM, rng.choice([_signal.SIGTERM, _signal.SIGINT])]
+        gaps = [0.1]
     more_sensors = more_curves = ""
     if fatal:
         phase = "fatal-sensor-error"
@@ -719,6 +733,8 @@ def c03_l2_scenario(binary, work, idx, rng, merged):
         for kind, pwm, en in devices:
             # a fan fan2go never wrote to (its controller ended before its first write) was never regulated: nothing to hand back
             touched = any(e["path"] in (pwm, en) and e["op"] == "w" for e in events) or l2.read_int(pwm, -1) != orig_pwm
+            if kind == "cmd":
+                touched = os.path.exists(os.path.join(sd, "cmdwrites"))
             final_pwm = l2.read_int(pwm, -1)
             final_mode = l2.read_int(en, -1) if en else None
             ok = (en is not None and final_mode == orig_mode and orig_mode != 1) or final_pwm == 255
@@ -1046,7 +1062,23 @@ def c15_l2_scenario(binary, work, idx, rng, merged):
     ids = dict(zip(("f1", "ff"), rng.choice([("f1", "ff"), ("rear", "cpu"), ("zz_top", "a1"), ("b", "a"), ("Fan2", "fan10")])))
     entries = ["  - id: %s\n    hwmon:\n      platform: chipa\n      rpmChannel: 1\n    neverStop: false\n    curve: lin\n    controlAlgorithm: direct\n" % ids["f1"] + extra,
                "  - id: %s\n    file:\n      path: %s/filefan\n    curve: lin\n    controlAlgorithm: direct\n" % (ids["ff"], sd) + extra]
-    if rng.random() < 0.5:
+    if idx in (4, 5):
+        # two ids that differ only in case (fan2go accepts them); the fan addressed later on is listed after the other one
+        req = "f1" if idx == 4 else "ff"
+        oth = "ff" if idx == 4 else "f1"
+        ids = {req: "cpu", oth: "CPU"}
+        entries = ["  - id: %s\n    hwmon:\n      platform: chipa\n      rpmChannel: 1\n    neverStop: false\n    curve: lin\n    controlAlgorithm: direct\n" % ids["f1"] + extra,
+                   "  - id: %s\n    file:\n      path: %s/filefan\n    curve: lin\n    controlAlgorithm: direct\n" % (ids["ff"], sd) + extra]
+        if req == "f1":
+            entries.reverse()
+    elif idx in (6, 7):
+        # the fan that is reset (twice in a row) has the id that sorts first
+        req = "f1" if idx == 6 else "ff"
+        oth = "ff" if idx == 6 else "f1"
+        ids = {req: "a1", oth: "zz_top"}
+        entries = ["  - id: %s\n    hwmon:\n      platform: chipa\n      rpmChannel: 1\n    neverStop: false\n    curve: lin\n    controlAlgorithm: direct\n" % ids["f1"] + extra,
+                   "  - id: %s\n    file:\n      path: %s/filefan\n    curve: lin\n    controlAlgorithm: direct\n" % (ids["ff"], sd) + extra]
+    elif rng.random() < 0.5:
         entries.reverse()
     if idx < 4 and re.findall(r"- id: (\S+)", "".join(entries)) == sorted(ids.values()):
         entries.reverse()  # the first four scenarios: entries not in the order of their ids
@@ -1067,9 +1099,11 @@ def c15_l2_scenario(binary, work, idx, rng, merged):
     driver = {"rules": [{"path": pwm1, "op": "w", "action": "quant", "val": 5}], "plants": []}
     ops = ["start"] + [rng.choice(["start", "start", "reset", "init"]) for _ in range(rng.randint(1, 3))] + ["start"]
     forced = None
-    if idx < 4:
+    if idx < 6:
         # one `fan reset` / `fan init` of each fan between two starts
-        ops, forced = ["start", ["reset", "reset", "init", "init"][idx], "start"], ["f1", "ff", "f1", "ff"][idx]
+        ops, forced = ["start", ["reset", "reset", "init", "init", "reset", "reset"][idx], "start"], ["f1", "ff", "f1", "ff", "f1", "ff"][idx]
+    if idx in (6, 7):
+        ops, forced = ["start", "reset", "reset", "start"], ["f1", "ff"][idx - 6]
     if rel_db and (idx == 1 or rng.random() < 0.5):
         # the user characterises a fan with `fan init` before the daemon runs for the first time
         ops = ["init"] + ops[(2 if idx == 1 else 0):]
